@@ -139,28 +139,63 @@ example : (∀ q ∈ [Equation.eq (.ref "z") (.delay 0 (.bin .add (.ref "x") (.d
   · intro q hq; simp at hq; subst hq; trivial
   · decide
 
-/-- **loop_args_preserved_partial.** Inside `for v in 1:n`, a `delay(a, d)` whose delayed
-    expression `a` is loop-indexed and contains no further `delay` is recorded as the vector of
-    `a` over the loop values: component `j` evaluates to `a` in iteration `j+1`; the duration is
-    recorded unchanged; the call is replaced by element `v` of the vector input.
-    Missing for the full property: delays nested inside a loop-indexed delayed expression (covered
-    by the correspondence only). -/
-theorem loop_args_preserved_partial (ρ : Env) (v : String) (n id : Nat) (a d : Expr) (s : St)
-    (ha : delayNodes a = []) (hd : delayNodes d = []) (hidx : mentionsIndexed v a = true) :
-    (tr (some (v, n)) (.delay id a d) s).1 = .dsymAt s.next (.ref v) ∧
-    ∃ arg, (tr (some (v, n)) (.delay id a d) s).2.args = s.args ++ [arg] ∧
-      arg.k = s.next ∧ arg.id = id ∧ arg.vec = true ∧ arg.dur = d ∧
-      arg.exprs.map (eval ρ) = (List.range n).map (fun j => evalL ρ v (j + 1) a) := by
-  have ta := tr_id (some (v, n)) a s ha
-  have td := tr_id (some (v, n)) d s hd
-  refine ⟨by simp [tr, ta, td, newSym, hidx], ?_⟩
-  refine ⟨newArg (some (v, n)) s.next id a d, by simp [tr, ta, td], newArg_k _ _ _ _ _, newArg_id _ _ _ _ _,
-    by simp [newArg, hidx], newArg_dur _ _ _ _ _, ?_⟩
-  simp [newArg, hidx, eval_substVar, Function.comp_def]
+/-- **rejects_iff_as_implemented.** The full characterisation of the duration check of the code
+    as it is, for *every* source (no hypothesis): the model is rejected iff some `delay` call has
+    a duration in which — reading references through the loop variable (`y[i]`, `i`, a
+    loop-indexed nested delay) as loop-local placeholders, as the generator does — a disallowed
+    symbol remains.  Together with `rejects_iff_partial` this isolates the defect C22-F1: the two
+    readings differ exactly on durations that mention the loop variable. -/
+theorem rejects_iff_as_implemented (c : Cats) (ieqs eqs : List Equation) :
+    postCheckFails c (translate ieqs eqs).args = true ↔
+      ∃ p ∈ allNodesL ieqs eqs, ∃ x ∈ srcAtomsL p.1 p.2.2.2, disallowed c x = true := by
+  have h := durs_translateL c ieqs eqs
+  have e1 : postCheckFails c (translate ieqs eqs).args = ((translate ieqs eqs).args.map (durKey c)).any id := by
+    simp [postCheckFails, List.any_map, durKey, Function.comp_def]
+  have e2 : ((allNodesL ieqs eqs).map (srcKeyL c)).any id = (allNodesL ieqs eqs).any (srcKeyL c) := by
+    simp [List.any_map, Function.comp_def]
+  rw [e1, h, e2, List.any_eq_true]
+  simp only [srcKeyL, List.any_eq_true]
 
-example : delayNodes (.bin .mul (.lit 2) (.idx "x" (.ref "i"))) = [] ∧
-    mentionsIndexed "i" (.bin .mul (.lit 2) (.idx "x" (.ref "i"))) = true := by
+example : srcAtomsL (some "i") (.bin .add (.idx "y" (.ref "i")) (.ref "x")) = [.loopIdx "y", .var "x"] ∧
+    srcAtomsL none (.bin .add (.idx "y" (.lit 2)) (.ref "x")) = [.var "y", .var "x"] := by
   constructor <;> decide
+
+/-- The defect behind C22-F2, proved on the model of the code as it is: a loop-indexed delayed
+    expression that mentions a scalar (`u`) occurring nowhere else in the loop body trips the
+    `assert` of `exitForEquation`, although its duration `p` is a parameter. -/
+theorem lonely_symbol_assertion :
+    verdict ⟨fun n => if n = "p" then some .param else if n = "x" then some .state else none, fun _ => false⟩
+      (translate [] [.forEq "i" 2 [(.idx "z" (.ref "i"),
+          .delay 0 (.bin .add (.idx "x" (.ref "i")) (.ref "u")) (.ref "p"))]])
+      = .assertionError := by decide
+
+example : verdict ⟨fun n => if n = "p" then some .param else none, fun _ => false⟩
+    (translate [] [.forEq "i" 2 [(.idx "z" (.ref "i"),
+        .bin .add (.delay 0 (.bin .add (.idx "x" (.ref "i")) (.ref "u")) (.ref "p")) (.ref "u"))]])
+    = .accept := by decide
+
+/-- **loop_args_preserved.** For the body of `for v in 1:n`, with arbitrarily nested delays: give
+    every delayed quantity a value `τ id c` per iteration `c`; if the input of each recorded
+    argument carries it (element `c` of the vector input of a loop-indexed delay, the scalar input
+    otherwise), then in every iteration each translated equation evaluates like its source
+    equation, and every recorded argument belongs to a source node such that: a loop-indexed
+    argument is the vector of the node's delayed expression over the iterations, a scalar one
+    evaluates to it, and the duration evaluates (in the iteration's context) to the node's
+    duration.  (The delay-argument *function* evaluates the duration outside the loop: that is
+    C22-F1 for durations mentioning the loop variable.) -/
+theorem loop_args_preserved (ρ : Env) (τ : Nat → Nat → Option Rat) (v : String) (n : Nat)
+    (body : List (Expr × Expr)) (s : St)
+    (hc : ∀ a ∈ pairArgs (some (v, n)) body s, LoopCons ρ τ n a) :
+    (∀ c, 1 ≤ c → c ≤ n →
+      (trPairs (some (v, n)) body s).1.map (fun p => (evalL ρ v c p.1, evalL ρ v c p.2)) =
+        body.map (fun p => (evalSL ρ τ v c p.1, evalSL ρ τ v c p.2))) ∧
+    (∀ a ∈ pairArgs (some (v, n)) body s, ∃ nd ∈ pairNodes body, PreservedL ρ τ v n a nd) ∧
+    (trPairs (some (v, n)) body s).2.args = s.args ++ pairArgs (some (v, n)) body s :=
+  ⟨(pairs_semL ρ τ v n body s hc).1, (pairs_semL ρ τ v n body s hc).2, pairs_args _ body s⟩
+
+example : (pairArgs (some ("i", 2)) [(.idx "z" (.ref "i"),
+      .delay 0 (.bin .add (.idx "x" (.ref "i")) (.delay 1 (.idx "y" (.ref "i")) (.lit 1))) (.ref "p"))] ⟨0, [], true⟩).map
+    (fun a => (a.id, a.vec, a.exprs.length)) = [(1, true, 2), (0, true, 2)] := by decide
 
 /-- **postcheck_invariant_under_substitution.** A simplification pass that substitutes symbols
     (alias elimination, `eliminable_variable_expression`, replacing parameter/constant values) in
